@@ -560,11 +560,20 @@ func c19Reconstruct(po *c19PipeObs, params e2eParams, ambQueued int, stopSeq int
 			} else if rc.pmap[int(id)] {
 				target = int(id)
 			}
-			rc.emit(21, id, 1)
-			if target >= 0 {
-				delete(rc.pmap, target)
-				lastAck = target
+			if target < 0 {
+				// an ACK whose id is not pending: since fix b537046 the acknowledger ends the session exactly as it
+				// does after a failed ACK read (OnError, abortConn, return with the pending map as its snapshot);
+				// the model has no separate event for it: it is its AckErr step (47). Before this mapping the
+				// reconstruction kept the acknowledger alive here, and a session that the acknowledger ended right
+				// after a completed send was reported as c19:trace:unexplained on the unchanged tree (timing-dependent:
+				// about one run in three; session 4)
+				rc.emit(47)
+				rc.acker = 2
+				break
 			}
+			rc.emit(21, id, 1)
+			delete(rc.pmap, target)
+			lastAck = target
 			rc.acker = 0
 		case cwAckFail:
 			rc.ackerTake()
